@@ -18,6 +18,10 @@ separate arguments there) so that the property theorems can be stated over tuple
 namespace MjProof.Spatial
 open MjProof MjProof.Gen
 
+/-- closes a goal that is a conjunction of polynomial identities (what `Prod.mk.injEq` leaves of an equation
+between tuples), whatever number of components `simp` has already discharged -/
+macro "tuple_ring" : tactic => `(tactic| first | done | rfl | ((repeat' constructor) <;> ring))
+
 abbrev Quat := ℝ × ℝ × ℝ × ℝ
 abbrev Vec3 := ℝ × ℝ × ℝ
 /-- row-major 3×3 matrix, as MuJoCo stores it -/
@@ -127,7 +131,7 @@ theorem mju_rotVecQuat_eq (v0 v1 v2 q0 q1 q2 q3 : ℝ) :
   split_ifs with h1 h2
   · obtain ⟨⟨rfl, rfl⟩, rfl⟩ := h1; simp
   · obtain ⟨⟨⟨rfl, rfl⟩, rfl⟩, rfl⟩ := h2; simp
-  · rfl
+  · simp only [Prod.mk.injEq]; tuple_ring
 
 /-- homogeneous rotation matrix of a quaternion (generic branch of `mju_quat2Mat`) -/
 def matF (q0 q1 q2 q3 : ℝ) : Mat3 :=
@@ -141,22 +145,26 @@ theorem mju_quat2Mat_eq (q0 q1 q2 q3 : ℝ) : mju_quat2Mat q0 q1 q2 q3 = matF q0
   push_cast
   split_ifs with h
   · obtain ⟨⟨⟨rfl, rfl⟩, rfl⟩, rfl⟩ := h; simp
-  · rfl
+  · simp only [Prod.mk.injEq]; tuple_ring
 
 theorem mju_mulQuat_eq (a0 a1 a2 a3 b0 b1 b2 b3 : ℝ) :
     mju_mulQuat a0 a1 a2 a3 b0 b1 b2 b3 =
       (a0*b0 - a1*b1 - a2*b2 - a3*b3, a0*b1 + a1*b0 + a2*b3 - a3*b2,
-       a0*b2 - a1*b3 + a2*b0 + a3*b1, a0*b3 + a1*b2 - a2*b1 + a3*b0) := rfl
+       a0*b2 - a1*b3 + a2*b0 + a3*b1, a0*b3 + a1*b2 - a2*b1 + a3*b0) := by
+  simp only [mju_mulQuat, Prod.mk.injEq]; tuple_ring
 
-theorem mju_negQuat_eq (q0 q1 q2 q3 : ℝ) : mju_negQuat q0 q1 q2 q3 = (q0, -q1, -q2, -q3) := rfl
+theorem mju_negQuat_eq (q0 q1 q2 q3 : ℝ) : mju_negQuat q0 q1 q2 q3 = (q0, -q1, -q2, -q3) := by
+  simp only [mju_negQuat, Prod.mk.injEq]; tuple_ring
 
 theorem mju_mulMatVec3_eq (m0 m1 m2 m3 m4 m5 m6 m7 m8 v0 v1 v2 : ℝ) :
     mju_mulMatVec3 m0 m1 m2 m3 m4 m5 m6 m7 m8 v0 v1 v2 =
-      (m0*v0 + m1*v1 + m2*v2, m3*v0 + m4*v1 + m5*v2, m6*v0 + m7*v1 + m8*v2) := rfl
+      (m0*v0 + m1*v1 + m2*v2, m3*v0 + m4*v1 + m5*v2, m6*v0 + m7*v1 + m8*v2) := by
+  simp only [mju_mulMatVec3, Prod.mk.injEq]; tuple_ring
 
 theorem mju_mulMatTVec3_eq (m0 m1 m2 m3 m4 m5 m6 m7 m8 v0 v1 v2 : ℝ) :
     mju_mulMatTVec3 m0 m1 m2 m3 m4 m5 m6 m7 m8 v0 v1 v2 =
-      (m0*v0 + m3*v1 + m6*v2, m1*v0 + m4*v1 + m7*v2, m2*v0 + m5*v1 + m8*v2) := rfl
+      (m0*v0 + m3*v1 + m6*v2, m1*v0 + m4*v1 + m7*v2, m2*v0 + m5*v1 + m8*v2) := by
+  simp only [mju_mulMatTVec3, Prod.mk.injEq]; tuple_ring
 
 /-- `mju_axisAngle2Quat`: the `angle == 0` branch agrees with the generic formula -/
 theorem mju_axisAngle2Quat_eq (x0 x1 x2 angle : ℝ) :
@@ -168,7 +176,7 @@ theorem mju_axisAngle2Quat_eq (x0 x1 x2 angle : ℝ) :
   push_cast
   split_ifs with h
   · subst h; simp
-  · rfl
+  · simp only [Prod.mk.injEq]; tuple_ring
 
 theorem mju_normalize3_eq (v0 v1 v2 : ℝ) :
     mju_normalize3 v0 v1 v2 =
@@ -177,9 +185,10 @@ theorem mju_normalize3_eq (v0 v1 v2 : ℝ) :
           (v0 / Real.sqrt (v0*v0 + v1*v1 + v2*v2), v1 / Real.sqrt (v0*v0 + v1*v1 + v2*v2),
            v2 / Real.sqrt (v0*v0 + v1*v1 + v2*v2))) := by
   simp only [mju_normalize3, real_sqrt, real_ofInt, decide_eq_true_eq, real_lt_iff, ofSci_minval]
+  push_cast
   split_ifs with h
   · simp
-  · simp only [Prod.mk.injEq]; refine ⟨trivial, ?_, ?_, ?_⟩ <;> (push_cast; ring)
+  · simp only [Prod.mk.injEq]; tuple_ring
 
 theorem mju_normalize4_eq (v0 v1 v2 v3 : ℝ) :
     mju_normalize4 v0 v1 v2 v3 =
@@ -195,7 +204,7 @@ theorem mju_normalize4_eq (v0 v1 v2 v3 : ℝ) :
   push_cast
   split_ifs with h1 h2
   · simp
-  · simp only [Prod.mk.injEq]; refine ⟨trivial, ?_, ?_, ?_, ?_⟩ <;> ring
+  · simp only [Prod.mk.injEq]; tuple_ring
   · rfl
 
 /-- a unit 4-vector passes through `mju_normalize4` unchanged (norm = 1: neither the "too small" nor the
@@ -233,7 +242,7 @@ theorem mju_negPose_eq (p0 p1 p2 q0 q1 q2 q3 : ℝ) :
     have e2 : q2 = 0 := by linarith
     have e3 : q3 = 0 := by linarith
     subst e1 e2 e3; simp
-  · simp only [Prod.mk.injEq]; simp only [and_true]; refine ⟨?_, ?_, ?_⟩ <;> ring
+  · simp only [Prod.mk.injEq]; tuple_ring
 
 theorem mju_trnVecPose_eq (p0 p1 p2 q0 q1 q2 q3 v0 v1 v2 : ℝ) :
     mju_trnVecPose p0 p1 p2 q0 q1 q2 q3 v0 v1 v2 =
@@ -304,25 +313,25 @@ theorem rotVecQuat_vadd (u w : Vec3) (q : Quat) :
     rotVecQuat (vadd u w) q = vadd (rotVecQuat u q) (rotVecQuat w q) := by
   obtain ⟨u0, u1, u2⟩ := u; obtain ⟨w0, w1, w2⟩ := w; obtain ⟨q0, q1, q2, q3⟩ := q
   simp only [rotVecQuat, vadd, mju_rotVecQuat_eq, rotF, Prod.mk.injEq]
-  refine ⟨?_, ?_, ?_⟩ <;> ring
+  tuple_ring
 
 theorem rotVecQuat_vneg (u : Vec3) (q : Quat) : rotVecQuat (vneg u) q = vneg (rotVecQuat u q) := by
   obtain ⟨u0, u1, u2⟩ := u; obtain ⟨q0, q1, q2, q3⟩ := q
   simp only [rotVecQuat, vneg, mju_rotVecQuat_eq, rotF, Prod.mk.injEq]
-  refine ⟨?_, ?_, ?_⟩ <;> ring
+  tuple_ring
 
 theorem vadd3_assoc (a b c : Vec3) : vadd (vadd a b) c = vadd a (vadd b c) := by
-  simp only [vadd, Prod.mk.injEq]; refine ⟨?_, ?_, ?_⟩ <;> ring
+  simp only [vadd, Prod.mk.injEq]; tuple_ring
 theorem vadd3_vneg (a : Vec3) : vadd a (vneg a) = (0, 0, 0) := by
-  simp only [vadd, vneg, Prod.mk.injEq]; refine ⟨?_, ?_, ?_⟩ <;> ring
+  simp only [vadd, vneg, Prod.mk.injEq]; tuple_ring
 theorem vneg_vadd3 (a : Vec3) : vadd (vneg a) a = (0, 0, 0) := by
-  simp only [vadd, vneg, Prod.mk.injEq]; refine ⟨?_, ?_, ?_⟩ <;> ring
+  simp only [vadd, vneg, Prod.mk.injEq]; tuple_ring
 theorem vadd3_zero (a : Vec3) : vadd a (0, 0, 0) = a := by
   obtain ⟨a0, a1, a2⟩ := a
-  simp only [vadd, Prod.mk.injEq]; refine ⟨?_, ?_, ?_⟩ <;> ring
+  simp only [vadd, Prod.mk.injEq]; tuple_ring
 theorem zero_vadd3 (a : Vec3) : vadd (0, 0, 0) a = a := by
   obtain ⟨a0, a1, a2⟩ := a
-  simp only [vadd, Prod.mk.injEq]; refine ⟨?_, ?_, ?_⟩ <;> ring
+  simp only [vadd, Prod.mk.injEq]; tuple_ring
 
 /-- `mju_mulPose`, all inputs: position `rot(pos2, quat1) + pos1`, quaternion `normalize4 (quat1·quat2)` -/
 theorem mulPose_eq (A B : Pose) :
